@@ -15,7 +15,8 @@ RULE = ('shim runs: scenarios whose test rules assign exit != 0, negative (signa
         'kills itself with SIGKILL or sleeps past the timeout.  Oracle: every committed tuple was logged with exit 0; '
         'non-blocking faults (exit!=0, signal, raise, INVALID) give the sequential reference result; runs end within the '
         'watchdog; report-directory counts within caps.  non-trivial = distinct scenarios with >= 1 fault verdict and >= 1 commit'
-        ' Also: directed scenarios with hanging candidates among several in flight (N in 2..4) compared with the sequential reference.')
+        ' Also: directed scenarios with hanging candidates among several in flight (N in 2..4) compared with the sequential reference.'
+        ' Also (rounds 4-5): several timeouts harvested by one poll across MAX_TIMEOUTS, report directories used up, every candidate a (silenced) helper error, a silenced helper error in the middle of a sweep; a real-pool finding must repeat with a generous timeout.')
 TRUSTED = T0 + ['real-pool runs trust pebble for worker start/kill/timeout delivery (observed, not proved)']
 ASSUMPTIONS = ['deterministic test', 'report directories numbered contiguously from 0 (the model counts them)']
 
